@@ -2,6 +2,7 @@ package props
 
 import (
 	"bytes"
+	"encoding/binary"
 	"encoding/json"
 	"fmt"
 	"math"
@@ -151,27 +152,94 @@ func c16SerBlock(m *wire.MsgBlock) []byte {
 	return buf.Bytes()
 }
 
-// guarded variants for messages handed out by the library (may be nil / damaged)
-func c16SerTxG(tx *wire.MsgTx) (b []byte, ok bool) {
+// Field print of a wire message: an injective encoding of every field the wire package reads
+// (c16SelfTest pins the field lists).  wire's Serialize / BlockHash / TxHash are pure functions
+// of these fields, so while the print of MsgBlock() equals the print of the fixture the fresh
+// computation from MsgBlock() IS the fixture's, which is computed once.  (Calling wire after
+// every step instead is correct but serialises all workers on wire's two global free-list
+// channels.)  When a print differs the oracle recomputes everything from MsgBlock() with wire.
+
+func c16PutBytes(b, s []byte) []byte {
+	b = binary.LittleEndian.AppendUint32(b, uint32(len(s)))
+	return append(b, s...)
+}
+
+func c16PrintTx(b []byte, tx *wire.MsgTx) []byte {
 	if tx == nil {
-		return nil, false
+		return append(b, 0xff)
 	}
-	_, p := mc.Guard(func() { b = c16SerTx(tx) })
-	return b, !p
+	b = append(b, 0x01)
+	b = binary.LittleEndian.AppendUint32(b, uint32(tx.Version))
+	b = binary.LittleEndian.AppendUint32(b, uint32(len(tx.TxIn)))
+	for _, in := range tx.TxIn {
+		if in == nil {
+			b = append(b, 0xff)
+			continue
+		}
+		b = append(b, 0x01)
+		b = append(b, in.PreviousOutPoint.Hash[:]...)
+		b = binary.LittleEndian.AppendUint32(b, in.PreviousOutPoint.Index)
+		b = c16PutBytes(b, in.SignatureScript)
+		b = binary.LittleEndian.AppendUint32(b, in.Sequence)
+	}
+	b = binary.LittleEndian.AppendUint32(b, uint32(len(tx.TxOut)))
+	for _, out := range tx.TxOut {
+		if out == nil {
+			b = append(b, 0xff)
+			continue
+		}
+		b = append(b, 0x01)
+		b = binary.LittleEndian.AppendUint64(b, uint64(out.Value))
+		b = c16PutBytes(b, out.PkScript)
+		b = append(b, out.TokenData.CategoryID[:]...)
+		b = c16PutBytes(b, out.TokenData.Commitment)
+		b = binary.LittleEndian.AppendUint64(b, out.TokenData.Amount)
+		b = append(b, out.TokenData.BitField)
+	}
+	return binary.LittleEndian.AppendUint32(b, tx.LockTime)
 }
 
-func c16SerBlockG(m *wire.MsgBlock) (b []byte, ok bool) {
+func c16PrintBlock(m *wire.MsgBlock) []byte {
 	if m == nil {
-		return nil, false
+		return []byte{0xff}
 	}
-	_, p := mc.Guard(func() { b = c16SerBlock(m) })
-	return b, !p
+	b := make([]byte, 0, 1024)
+	h := &m.Header
+	b = binary.LittleEndian.AppendUint32(b, uint32(h.Version))
+	b = append(b, h.PrevBlock[:]...)
+	b = append(b, h.MerkleRoot[:]...)
+	b = binary.LittleEndian.AppendUint64(b, uint64(h.Timestamp.Unix()))
+	b = binary.LittleEndian.AppendUint32(b, uint32(h.Timestamp.Nanosecond()))
+	b = binary.LittleEndian.AppendUint32(b, h.Bits)
+	b = binary.LittleEndian.AppendUint32(b, h.Nonce)
+	b = binary.LittleEndian.AppendUint32(b, uint32(len(m.Transactions)))
+	for _, tx := range m.Transactions {
+		b = c16PrintTx(b, tx)
+	}
+	return b
 }
 
-// reference serialisations of the fixtures, computed once with the wire package only
+// c16Ref: everything the oracle needs of one wire message, computed with the wire package.
 type c16Ref struct {
-	n   int
-	ser []byte
+	n      int
+	print  []byte
+	ser    []byte
+	hash   chainhash.Hash
+	txSer  [][]byte
+	txHash []chainhash.Hash
+}
+
+func c16BlockRefOf(m *wire.MsgBlock) *c16Ref {
+	r := &c16Ref{n: len(m.Transactions), print: c16PrintBlock(m), ser: c16SerBlock(m), hash: m.BlockHash()}
+	for _, tx := range m.Transactions {
+		r.txSer = append(r.txSer, c16SerTx(tx))
+		r.txHash = append(r.txHash, tx.TxHash())
+	}
+	return r
+}
+
+func c16TxRefOf(tx *wire.MsgTx) *c16Ref {
+	return &c16Ref{print: c16PrintTx(nil, tx), ser: c16SerTx(tx), hash: tx.TxHash()}
 }
 
 var (
@@ -185,25 +253,46 @@ func c16Refs() {
 		c16BlockRefs = map[string]*c16Ref{}
 		c16TxRefs = map[string]*c16Ref{}
 		for _, n := range c16BlockNames {
-			m := c16BuildBlock(n)
-			c16BlockRefs[n] = &c16Ref{n: len(m.Transactions), ser: c16SerBlock(m)}
+			c16BlockRefs[n] = c16BlockRefOf(c16BuildBlock(n))
 		}
 		for _, n := range c16TxNames {
-			c16TxRefs[n] = &c16Ref{ser: c16SerTx(c16BuildTx(n))}
+			c16TxRefs[n] = c16TxRefOf(c16BuildTx(n))
 		}
 	})
 }
 
-// c16SelfTest: the fixtures are well-formed for the dependency (decode . encode = identity);
-// otherwise the harness, not the library, is at fault.
+func c16Fields(t reflect.Type) string {
+	var names []string
+	for i := 0; i < t.NumField(); i++ {
+		names = append(names, t.Field(i).Name)
+	}
+	return strings.Join(names, ",")
+}
+
+// c16SelfTest: the fixtures are well-formed for the dependency (decode . encode = identity and
+// the decoded message has the fixture's field print), and the field print covers every field
+// of the wire structs; otherwise the harness, not the library, is at fault.
 func c16SelfTest() {
 	c16Refs()
+	for typ, want := range map[reflect.Type]string{
+		reflect.TypeOf(wire.MsgBlock{}):    "Header,Transactions",
+		reflect.TypeOf(wire.BlockHeader{}): "Version,PrevBlock,MerkleRoot,Timestamp,Bits,Nonce",
+		reflect.TypeOf(wire.MsgTx{}):       "Version,TxIn,TxOut,LockTime",
+		reflect.TypeOf(wire.TxIn{}):        "PreviousOutPoint,SignatureScript,Sequence",
+		reflect.TypeOf(wire.OutPoint{}):    "Hash,Index",
+		reflect.TypeOf(wire.TxOut{}):       "Value,PkScript,TokenData",
+		reflect.TypeOf(wire.TokenData{}):   "CategoryID,Commitment,Amount,BitField",
+	} {
+		if got := c16Fields(typ); got != want {
+			panic("C16 self-test: " + typ.String() + " has fields " + got + ", the field print covers " + want)
+		}
+	}
 	for n, r := range c16BlockRefs {
 		var m wire.MsgBlock
 		if err := m.Deserialize(bytes.NewReader(r.ser)); err != nil {
 			panic("C16 self-test: wire rejects block fixture " + n + ": " + err.Error())
 		}
-		if !bytes.Equal(c16SerBlock(&m), r.ser) || len(m.Transactions) != r.n {
+		if !bytes.Equal(c16SerBlock(&m), r.ser) || !bytes.Equal(c16PrintBlock(&m), r.print) {
 			panic("C16 self-test: block fixture " + n + " does not survive wire decode/encode")
 		}
 	}
@@ -212,13 +301,19 @@ func c16SelfTest() {
 		if err := m.Deserialize(bytes.NewReader(r.ser)); err != nil {
 			panic("C16 self-test: wire rejects transaction fixture " + n + ": " + err.Error())
 		}
-		if !bytes.Equal(c16SerTx(&m), r.ser) {
+		if !bytes.Equal(c16SerTx(&m), r.ser) || !bytes.Equal(c16PrintTx(nil, &m), r.print) {
 			panic("C16 self-test: transaction fixture " + n + " does not survive wire decode/encode")
 		}
 	}
 	tok := c16BuildTx("token")
 	if tok.TxOut[0].TokenData.IsEmpty() || !tok.TxOut[0].TokenData.IsValidBitfield() || !tok.TxOut[1].TokenData.IsValidBitfield() {
 		panic("C16 self-test: token fixture carries no valid token data")
+	}
+	// the print separates the fixtures from each other and from a one-field change
+	m := c16BuildBlock("b3tok")
+	m.Transactions[1].TxOut[0].TokenData.Commitment[2] ^= 1
+	if bytes.Equal(c16PrintBlock(m), c16BlockRefs["b3tok"].print) {
+		panic("C16 self-test: field print misses a token commitment change")
 	}
 }
 
